@@ -200,6 +200,42 @@ def double_reset():
             len(out["unclosed"]) <= 1}
 
 
+def requeue_before_reset():
+    """A write fails on an entry with retries left while the disconnect notification is slow: ten more sends arrive
+    while the reset is suspended.  The failed entry must already be back in the buffer - the tenth of them is refused."""
+    reg, gs, acs = _at4()
+    out = {}
+
+    async def main(loop, net):
+        S, sock = _sock(loop, reg.INSTANCE)
+
+        async def slow(*, connected):
+            if not connected:
+                await asyncio.sleep(1.0)
+        sock.subscribe_on_connection_changed(slow)
+        net.script = [("accept", 0.0), ("refuse", 0.0), ("refuse", 0.0), ("refuse", 0.0)]
+        await sock.open_socket()
+        await asyncio.sleep(0.1)
+        sock._writer.fail_drain_after = 1
+        first = loop.create_task(sock.send(acs.AcStatusRequest(), S.RETRY_IDEMPOTENT))
+        await asyncio.sleep(0.2)               # the write failed; the reset is suspended in the slow notification
+        refused, held = 0, []
+        for _ in range(10):
+            try:
+                await sock.send(gs.GroupStatusRequest(), S.RETRY_IDEMPOTENT)
+            except S.QueueOverflowError:
+                refused += 1
+            held.append(len(sock._message_queue))
+        await first
+        out["refused"], out["max_held"] = refused, max(held + [len(sock._message_queue)])
+        await sock.close()
+
+    vloop.run(main)
+    return {"...before the reset can suspend: whatever is accepted while the link is being reset is counted against a buffer "
+            "that already holds the failed entry (the capacity rule), and queues up behind it (the order)":
+            out["refused"] == 1 and out["max_held"] <= 10}
+
+
 def _drain_targeted():
     from replay.more_scenarios import drain_scenarios
     return drain_scenarios()
@@ -211,7 +247,7 @@ def _connect_errors():
 
 
 LIBRARY = {
-    "drain": [drain_exception_escape, drain_resumes_disconnected, _drain_targeted],
+    "drain": [drain_exception_escape, drain_resumes_disconnected, _drain_targeted, requeue_before_reset],
     "connect": [connect_after_close, close_while_connecting, double_reset, connect_wedged_by_unencodable, _connect_errors],
 }
 
